@@ -74,3 +74,17 @@ pub fn event(event: Event) {
 pub fn take_events() -> Vec<Event> {
     EVENTS.with(|e| std::mem::take(&mut *e.borrow_mut()))
 }
+
+// Line editor of the interactive debugger terminal (the modules are private).
+pub use crate::debugger::verif_terminal::{
+    script_keys as editor_script_keys, take_views as editor_take_views, VerifKeysExhausted,
+    View as EditorView,
+};
+pub use crate::debugger::VerifTerminal as Terminal;
+pub use crate::term::Key;
+
+/// Rust's own classification of a character, as used by the editor's word motions and by
+/// `str::trim`: (`char::is_whitespace`, `char::is_alphanumeric`).
+pub fn char_class(ch: char) -> (bool, bool) {
+    (ch.is_whitespace(), ch.is_alphanumeric())
+}
